@@ -60,6 +60,19 @@ class LockRoles:
                                 return one(e_.body) and one(e_.orelse)
                             return isinstance(e_, ast.Call) and rm_.path(e_.func) in ('threading.Lock', 'threading.RLock')
                         return bool(rets_) and all(one(x.value) for x in rets_)
+                if isinstance(v, ast.Call) and isinstance(v.func, ast.Name) and depth > 0:
+                    # ... or a module-level factory function (`_new_thread_lock(reentrant)`)
+                    mf_ = next((x for x in u.module_scope.children if x.kind == 'function' and x.name == v.func.id), None)
+                    if mf_ is not None and not mf_.is_async and not mf_.is_generator:
+                        rets_ = [x for x in own_nodes(mf_.node) if isinstance(x, ast.Return)]
+                        rm_ = Resolver(mf_)
+
+                        def one2(e_: Optional[ast.AST]) -> bool:
+                            if isinstance(e_, ast.IfExp):
+                                return one2(e_.body) and one2(e_.orelse)
+                            return isinstance(e_, ast.Call) and rm_.path(e_.func) in ('threading.Lock', 'threading.RLock')
+                        if rets_ and all(one2(x.value) for x in rets_):
+                            return True
                 if isinstance(v, ast.Call):
                     fs = lock_factories(v.func)
                     return bool(fs) and all(f in ('threading.Lock', 'threading.RLock') for f in fs)
@@ -1343,7 +1356,7 @@ def _rule_lock_kind(ctx: Ctx, r: LockRoles) -> None:
     from ..sym import enum_paths, sym_env, subst, simplify
     init = r.init
     p = ctx.program
-    g = build(init, p, inline_methods=True)      # (a private factory method that picks the lock class is part of the constructor)
+    g = build(init, p, inline_methods=True, inline_module_helpers=True)      # (a private factory that picks the lock class is part of the constructor)
     res = g.res
     stores = [n for n in g.nodes if n.kind == 'store_attr' and n.meta['attr'] == r.tl]
     rp = next((x for x in init.params if 'reentrant' in x), None)
@@ -1355,9 +1368,15 @@ def _rule_lock_kind(ctx: Ctx, r: LockRoles) -> None:
     opt_attrs = {n.meta['attr'] for n in g.nodes if n.kind == 'store_attr' and isinstance(n.meta.get('value'), ast.Name)
                  and n.meta['value'].id == rp}
 
-    def fold(e: ast.AST, b: bool) -> Optional[bool]:
+    # parameters of an inlined factory stand for what the constructor handed in (`_new_thread_lock(reentrant)` / `(self._reentrant)`)
+    bound_params = {n.meta['name']: n.meta.get('value') for n in g.nodes if n.kind == 'store_name' and n.meta.get('inlined_param')
+                    and n.meta.get('value') is not None}
+
+    def fold(e: ast.AST, b: bool, _d: int = 0) -> Optional[bool]:
         if isinstance(e, ast.Name) and e.id == rp:
             return b
+        if isinstance(e, ast.Name) and e.id in bound_params and _d < 4 and not (isinstance(bound_params[e.id], ast.Name) and bound_params[e.id].id == e.id):
+            return fold(bound_params[e.id], b, _d + 1)
         if isinstance(e, ast.Attribute) and isinstance(e.value, ast.Name) and e.value.id == 'self' and e.attr in opt_attrs:
             return b
         if isinstance(e, ast.UnaryOp) and isinstance(e.op, ast.Not):
